@@ -238,6 +238,19 @@ Theorem C06_gen_print_timestamp : forall f_ts hex safe pc noColor json buf,
 Proof. exact GenLayoutP.gen_print_timestamp. Qed.
 Print Assumptions C06_gen_print_timestamp.
 
+(* THE LOGGER NAME PART.  Entry.printLoggerName, translated from the source on every run: a logger WITHOUT a name
+   writes nothing at all; a named one writes the member `logger` and the member separator of the format in the plain
+   formats, and in colour mode the name in the logger-name colour (37, no background) followed by ONE blank
+   (AddString and the colour library's WrapColorAndBgTo are parameters). *)
+Theorem C06_gen_print_logger_name : forall fa fw name pc noColor json buf,
+  Layout.print_logger_name fa fw name pc noColor json buf = LayoutRef.print_logger_name_ref fa fw name noColor json buf.
+Proof. exact GenLayoutP.gen_print_logger_name. Qed.
+Print Assumptions C06_gen_print_logger_name.
+Theorem C06_gen_no_name_no_part : forall fa fw pc noColor json buf,
+  Layout.print_logger_name fa fw [] pc noColor json buf = Some buf.
+Proof. intros. rewrite GenLayoutP.gen_print_logger_name. reflexivity. Qed.
+Print Assumptions C06_gen_no_name_no_part.
+
 Definition ex_isprint (r : Z) : bool := (32 <=? r) && (r <? 127).
 Definition ex_cfg : ecfg :=
   {| e_mode := ShColor; e_name := [x73;x76;x63]; e_lvl := 2; e_caller := Some ([x61;x2e;x67;x6f], 7, [x70;x2f;x6d;x2e;x66]);
